@@ -1,0 +1,1 @@
+//! Verification hooks: alloc (see verif/mod.rs).
